@@ -32,6 +32,10 @@ var pureExterns = map[string]bool{
 	"fmt.Println": true, "fmt.Printf": true, "fmt.Print": true,
 	"math/bits.Len": true, "math/bits.Len64": true,
 	"encoding/hex.EncodeToString": true,
+	"math.Float32frombits": true, "math.Float32bits": true, "math.Float64frombits": true, "math.Float64bits": true,
+	"math.Abs": true, "math.Pow": true, "math.Floor": true, "math.Round": true, "math.Trunc": true, "math.Exp": true, "math.IsNaN": true, "math.IsInf": true,
+	"github.com/x448/float16.Frombits": true, "github.com/x448/float16.Fromfloat32": true,
+	"float16.Float16.Float32": true, "float16.Float16.Bits": true,
 }
 
 func (ex *exec) calleeContract(c *ssa.CallCommon) (*FuncContract, *ssa.Function, string) {
@@ -279,6 +283,33 @@ func (ex *exec) assignHeapNames(fc *FuncContract, fn *ssa.Function, c *ssa.CallC
 			}
 		}
 	case *SCall:
+		if x.Fun == "allfields" && len(x.Args) == 1 {
+			bt := ex.specStaticType(fc, fn, c, x.Args[0])
+			if bt == nil {
+				return nil, fmt.Errorf("cannot type %s", a.Text)
+			}
+			p, ok := bt.Underlying().(*types.Pointer)
+			if !ok {
+				return nil, fmt.Errorf(".* through non-pointer")
+			}
+			var names []string
+			var walk func(t types.Type)
+			walk = func(t types.Type) {
+				sty, ok := t.Underlying().(*types.Struct)
+				if !ok {
+					return
+				}
+				for i := 0; i < sty.NumFields(); i++ {
+					if _, nested := sty.Field(i).Type().Underlying().(*types.Struct); nested {
+						walk(sty.Field(i).Type())
+					} else {
+						names = append(names, vc.fieldHeap(t, i).name)
+					}
+				}
+			}
+			walk(p.Elem())
+			return names, nil
+		}
 		if x.Fun == "spare" && len(x.Args) == 1 {
 			bt := ex.specStaticType(fc, fn, c, x.Args[0])
 			if sl, ok := bt.Underlying().(*types.Slice); ok && bt != nil {
@@ -502,6 +533,19 @@ func (ex *exec) havocAssign(st, pre *State, env *SpecEnv, a AssignLoc) error {
 		vc.heapSet(st, hi, "(store "+vc.heapGet(st, hi)+" "+ref+" "+n+")")
 		return nil
 	case *SCall:
+		if x.Fun == "allfields" && len(x.Args) == 1 {
+			base, err := env.term(x.Args[0])
+			if err != nil {
+				return err
+			}
+			return ex.allFieldCells(env, base, func(hi *heapInfo, ref string) {
+				n := vc.freshConst("hv_field", hi.valSort)
+				if hi.valType != nil {
+					vc.assume("true", vc.sorts.typeInv(hi.valType, n, st.nextRef))
+				}
+				vc.heapSet(st, hi, "(store "+vc.heapGet(st, hi)+" "+ref+" "+n+")")
+			})
+		}
 		if x.Fun != "spare" || len(x.Args) != 1 {
 			return fmt.Errorf("unsupported assigns location")
 		}
@@ -526,6 +570,14 @@ func (ex *exec) havocAssign(st, pre *State, env *SpecEnv, a AssignLoc) error {
 		base, err := env.term(x.X)
 		if err != nil {
 			return err
+		}
+		if m, ok := base.Typ.Underlying().(*types.Map); ok && base.S != SSlice {
+			has, val := vc.mapHeaps(m)
+			for _, hi := range []*heapInfo{has, val} {
+				n := vc.freshConst("hv_map", "(Array "+hi.keySort+" "+hi.valSort+")")
+				vc.heapSet(st, hi, "(store "+vc.heapGet(st, hi)+" "+base.T+" "+n+")")
+			}
+			return nil
 		}
 		if base.S != SSlice {
 			return fmt.Errorf("indexed assigns on non-slice")
@@ -785,6 +837,7 @@ func (ex *exec) frameCheckAgainst(st, base, evalSt *State, assigns []AssignLoc, 
 	allowedElemAll := map[string][]string{}
 	allowedElemOne := map[string][][2]string{}
 	allowedSpare := map[string][]string{}
+	allowedMap := map[string][]string{}
 	for _, a := range assigns {
 		switch x := a.E.(type) {
 		case *SSelect:
@@ -798,6 +851,18 @@ func (ex *exec) frameCheckAgainst(st, base, evalSt *State, assigns []AssignLoc, 
 			}
 			allowedField[hi.name] = append(allowedField[hi.name], ref)
 		case *SCall:
+			if x.Fun == "allfields" && len(x.Args) == 1 {
+				b, err := env.term(x.Args[0])
+				if err != nil {
+					ex.bail("assigns %s: %v", a.Text, err)
+				}
+				if err := ex.allFieldCells(env, b, func(hi *heapInfo, ref string) {
+					allowedField[hi.name] = append(allowedField[hi.name], ref)
+				}); err != nil {
+					ex.bail("assigns %s: %v", a.Text, err)
+				}
+				continue
+			}
 			if x.Fun != "spare" || len(x.Args) != 1 {
 				ex.bail("assigns %s: unsupported location", a.Text)
 			}
@@ -814,6 +879,12 @@ func (ex *exec) frameCheckAgainst(st, base, evalSt *State, assigns []AssignLoc, 
 			b, err := env.term(x.X)
 			if err != nil {
 				ex.bail("assigns %s: %v", a.Text, err)
+			}
+			if m, ok := b.Typ.Underlying().(*types.Map); ok && b.S != SSlice {
+				has, val := vc.mapHeaps(m)
+				allowedMap[has.name] = append(allowedMap[has.name], b.T)
+				allowedMap[val.name] = append(allowedMap[val.name], b.T)
+				continue
 			}
 			if b.S != SSlice {
 				ex.bail("assigns %s: not a slice", a.Text)
@@ -874,6 +945,9 @@ func (ex *exec) frameCheckAgainst(st, base, evalSt *State, assigns []AssignLoc, 
 			}
 			for _, p := range allowedElemOne[name] {
 				ex2 = append(ex2, "(and (= r! (sarr "+p[0]+")) (= i! (+ (soff "+p[0]+") "+p[1]+")))")
+			}
+			for _, m := range allowedMap[name] {
+				ex2 = append(ex2, "(= r! "+m+")")
 			}
 			ks := hi.keySort
 			if ks == "" {
